@@ -32,7 +32,7 @@ def gen_cases(tier, seed):
     return cases
 
 
-def synthetic(kind, l, LON, COL, T, w):
+def synthetic(kind, l, LON, COL, T, w, sine=False):
     s, c = np.sin(COL), np.cos(COL)
     if kind == 'sectoral':
         k = l
@@ -50,7 +50,9 @@ def synthetic(kind, l, LON, COL, T, w):
     Upp = -k * k * U
     Utp = 1j * k * Ut
     amp = 1.0e3
-    return [amp * np.real(x) for x in (U, Ut, Up, Utt, Upp, Utp)]
+    # cosine phase (real part) or sine phase (imaginary part: the potential is exactly zero where k lon + w t = 0 while its gradient is not)
+    part = np.imag if sine else np.real
+    return [amp * part(x) for x in (U, Ut, Up, Utt, Upp, Utp)]
 
 
 def eval_case(c):
@@ -71,9 +73,14 @@ def eval_case(c):
     elif shape_kind == 5:
         nr, nlon = 2, 1
     lon = np.sort(rng.uniform(0, 2 * math.pi, nlon))
+    sine = bool(c['sub'] % 2) and c['pot'] != 'tidalpy'
+    if sine:
+        lon[0] = 0.0       # with the first time set to 0 below, the sine-phase potential vanishes exactly on this meridian at that time
     col = np.sort(rng.uniform(0.15, math.pi - 0.15, ncol))
     n = 10 ** rng.uniform(-6, -4)
     tt = np.sort(rng.uniform(0, 20 / n, nt))
+    if sine:
+        tt[0] = 0.0
     LON, COL, T = np.meshgrid(lon, col, tt, indexing='ij')
     l = c['l']
     Rw = 10 ** rng.uniform(5.5, 7)
@@ -95,9 +102,9 @@ def eval_case(c):
         potdesc = f'{name}:{key}'
     else:
         w = float(n * rng.uniform(0.5, 3))
-        pots = synthetic(c['pot'], l, LON, COL, T, w)
+        pots = synthetic(c['pot'], l, LON, COL, T, w, sine)
         freq = w
-        potdesc = f"{c['pot']} l={l}"
+        potdesc = f"{c['pot']} l={l}" + (' sine phase (exact zeros of U on the grid)' if sine else '')
     U, Ut, Up, Utt, Upp, Utp = pots
     # precondition: degree-l Laplace identity
     lap = np.max(np.abs(Utt + Ut / np.tan(COL) + Upp / np.sin(COL) ** 2 + l * (l + 1) * U)) / max(np.max(np.abs(U)), 1e-300)
